@@ -43,6 +43,7 @@ type FakeServer struct {
 	reqs    atomic.Int64
 	accepts atomic.Int64
 	log     []string
+	seen    []SeenRequest
 }
 
 func (s *FakeServer) Start() error {
@@ -77,6 +78,33 @@ func (s *FakeServer) logf(f string, a ...any) {
 		s.log = append(s.log, fmt.Sprintf(f, a...))
 	}
 	s.mu.Unlock()
+}
+
+// SeenRequest is one request as the scripted server received it.
+type SeenRequest struct {
+	Method   string
+	URL      string // as printed from the parsed request line
+	UserInfo bool   // the request line carried credentials
+}
+
+func (s *FakeServer) noteRequest(req *base.Request) {
+	sr := SeenRequest{Method: string(req.Method)}
+	if req.URL != nil {
+		sr.URL = req.URL.String()
+		sr.UserInfo = req.URL.User != nil
+	}
+	s.mu.Lock()
+	if len(s.seen) < 500 {
+		s.seen = append(s.seen, sr)
+	}
+	s.mu.Unlock()
+}
+
+// Seen returns the requests received so far.
+func (s *FakeServer) Seen() []SeenRequest {
+	s.mu.Lock()
+	defer s.mu.Unlock()
+	return append([]SeenRequest(nil), s.seen...)
 }
 
 func (s *FakeServer) Transcript() string {
@@ -208,6 +236,7 @@ func (s *FakeServer) serve(nc net.Conn) {
 			continue // client frames and client responses to our requests
 		}
 		s.reqs.Add(1)
+		s.noteRequest(req)
 		if !s.handle(nc, st, req, write) {
 			return
 		}
@@ -694,6 +723,10 @@ func (s *FakeServer) applyRule(p *plan, r SrvRule, st *fakeConnState, req *base.
 		if len(d) > 0 {
 			p.hdr[r.S] = []string{d[r.N%len(d)]}
 		}
+	case "hdr-lit": // S = name NUL value
+		if kv := strings.SplitN(r.S, "\x00", 2); len(kv) == 2 {
+			p.hdr[kv[0]] = []string{kv[1]}
+		}
 	case "hdr-dup":
 		if v, ok := p.hdr[r.S]; ok && len(v) >= 1 {
 			p.hdr[r.S] = []string{v[0], v[0]}
@@ -703,6 +736,18 @@ func (s *FakeServer) applyRule(p *plan, r SrvRule, st *fakeConnState, req *base.
 	case "sdp":
 		if req.Method == base.Describe {
 			p.body = []byte(sdpVariant(r.N, s.Medias))
+		}
+	case "sdp-all-ctl": // every media gets the control attribute S with %d replaced by its index
+		if req.Method == base.Describe {
+			ctl := map[int]string{}
+			for i := 0; i < s.Medias; i++ {
+				ctl[i] = strings.ReplaceAll(r.S, "%d", strconv.Itoa(i))
+			}
+			sess := ""
+			if r.N == 1 {
+				sess = "*"
+			}
+			p.body = []byte(fakeSDP(s.Medias, s.BackChannel, ctl, sess))
 		}
 	case "sdp-ctl": // N = -1 session level, else media index
 		if req.Method == base.Describe {
